@@ -99,12 +99,25 @@ def body(case):
     out.nontrivial = conditioned and any(sels)
     out.label(f"route:{how[0]}", "conditioned" if conditioned else "plain", *( ["labelled"] if labelled else []))
     out.sample = f"{how[0]}: {show(parts,400)}"
+    if len(repr(parts)) % 2:
+        # a modifier copy of the path is derived and serialised first (what is written for a path is its own)
+        try:
+            q = p.length() if len(repr(parts)) % 4 == 1 else p.dtype()
+            q.to_spec()
+            out.label("derived-copy-serialised-first")
+        except Exception:
+            pass
     try:
         specs = p.to_part_specs()
     except Exception as e:
-        # refusal (any raise) is allowed by the statement
+        # refusal (any raise) is allowed by the statement - but a refusal leaves nothing behind: asked again, the path
+        # refuses again or is written faithfully (checked below like any other serialisation)
         out.label("refused")
-        return out
+        try:
+            specs = p.to_part_specs()
+            out.label("refused-then-emitted")
+        except Exception:
+            return out
     try:
         jl = p.to_json_like()
         if exact(tuples_to_lists(jl)) != exact(tuples_to_lists(specs)):
@@ -141,9 +154,39 @@ def body(case):
             return c10.sel_norm(x)
 
         na, nb, ne = norm(a, conc_a), norm(b, conc_b), c10.sel_norm(sel)
+        if (isinstance(a, list)) != (isinstance(b, list)):
+            # one answers with a list of matches, the other with a single match / None: not the same selection
+            out.add("selects-same", "selects-same|shape|" + how[0],
+                    f"{show(parts,250)} -> specs {show(specs,200)}; on {show(pd,120)} original {show(a,120)} rebuilt {show(b,120)}")
+            return out
         if nb != na or nb != ne:
             out.add("selects-same", "selects-same|" + ("conditioned" if conditioned else "plain") + "|" + how[0],
                     f"{show(parts,250)} -> specs {show(specs,200)}; on {show(pd,120)} original {show(a,120)} rebuilt {show(b,120)} reference {show(sel,120)}")
+            return out
+    # a sub-path taken from the (already serialised) path serialises as what IT selects
+    if len(parts) >= 2 and not out.violations:
+        k = 1 + len(repr(parts)) % (len(parts) - 1)
+        try:
+            sl = p[0:k]
+            try:
+                sl_specs = json.loads(json.dumps(sl.to_part_specs()))
+            except Exception:
+                sl_specs = None
+                out.label("slice-refused")
+            if sl_specs is not None:
+                sl2 = ns.d.DataPath.from_part_specs(*sl_specs)
+                for pd in probes:
+                    a = sl.get_data(pd, return_paths=True)
+                    b = sl2.get_data(pd, return_paths=True)
+                    nrm = lambda x, conc: ([] if x is None else c10.sel_norm([x])) if conc else c10.sel_norm(x)
+                    na, nb, ne = nrm(a, sl.is_concrete), nrm(b, sl2.is_concrete), c10.sel_norm(model.ref_select(parts[:k], pd))
+                    if nb != na or nb != ne or isinstance(a, list) != isinstance(b, list):
+                        out.add("selects-same", "selects-same|slice|" + how[0],
+                                f"{show(parts,200)}[0:{k}] -> specs {show(sl_specs,150)}; on {show(pd,120)} slice {show(a,100)} rebuilt {show(b,100)}")
+                        return out
+                out.label("slice-checked")
+        except Exception as e:
+            out.exc("slice", e)
             return out
     if how[0] == "spec":
         try:
